@@ -510,11 +510,26 @@ PROMOTED = os.path.join(common.COQ, 'Routing', 'ClientFull.v')
 PINNED = os.path.join(common.COQ, 'Routing', 'ClientPinned.v')
 
 
+def failed_in_build(chk):
+    """Files make reported as failing (from the 'coq build failed in [...]' entry of chk.broken)."""
+    import re
+    out = []
+    for b in chk.broken:
+        m = re.match(r"coq build failed in (\[[^\]]*\])", b)
+        if m:
+            out.extend(re.findall(r"'([^']+)'", m.group(1)))
+    return out
+
+
 def try_client_full(chk):
     """True when the full-strength client theorems compile against the current
     Gen_base_client.v (trial compile of the pending file, or already part of the build)."""
     if os.path.exists(PROMOTED):
-        ok = os.path.exists(PROMOTED[:-2] + '.vo') and not chk.broken
+        # built against the current translation of the client, and not named among the files that failed
+        vo, gen = PROMOTED[:-2] + '.vo', os.path.join(common.COQ, 'Routing', 'Gen_base_client.vo')
+        ok = os.path.exists(vo) and os.path.exists(gen) and os.path.getmtime(vo) >= os.path.getmtime(gen) and \
+            not any(f in failed_in_build(chk) for f in ('Routing/ClientFull.v', 'Routing/RoutingProofs.v')) and \
+            not any('ERROR py2coq' in b for b in chk.broken)
         chk.extra['client_full_theorems'] = 'promoted into Props/C13.v; %s' % ('proved' if ok else 'BROKEN')
         return ok
     d = os.path.join(common.BUILD, 'c13')
@@ -1047,7 +1062,13 @@ def run(chk):
                     chk.broken_obligation('generated %s lookup differs from the specification on %r but the real %s '
                                           'follows the specification there (translator or model suspect)'
                                           % (w['side'], w, w['cls']))
-        if not proved and not bad and searched and not (client_full and not promoted):
+        ns_failed = 'Routing/NsDispatchProofs.v' in failed_in_build(chk) or any('ERROR ns2coq' in b for b in chk.broken)
+        if ns_failed:
+            chk.broken_obligation('the trigger_event of a namespace base class is outside the translator whitelist or '
+                                  'its translation no longer satisfies dispatch_spec (Routing/NsDispatchProofs.v): '
+                                  '"the on_<event> method of THE object that received the event is called with the '
+                                  'arguments it received" is not proved of this tree')
+        elif not proved and not bad and searched and not (client_full and not promoted):
             chk.broken_obligation('a C13 theorem no longer proves although generated functions and specification '
                                   'agree on the whole abstract domain (proof script needs attention)')
         if not client_full and not bad.get(('C', 'event')) and not bad.get(('C', 'trigger')) and searched:
